@@ -309,3 +309,72 @@ def gen_spec(r, name, rich=True, nfree=None):
             f.consts["ret"] = 900 + i
     spec.funcs = funcs
     return spec
+
+
+def fixed_spec(name="ogf"):
+    """A hand-picked description whose wrappers keep compiling under many source changes (adjacent
+    parameters of equal type, every modelled kind once)."""
+    import random
+    r = random.Random(12345)
+    spec = Spec(name)
+    spec.classes = ["K0"]
+    spec.use_enum = spec.use_struct = True
+    N = lambda t, n, mode="val", intent="in", const=False: Param("native", t, mode, intent, n, const=const)
+    S = lambda n, mode="ref", intent="in": Param("string", "string", mode, intent, n, const=(intent == "in"))
+    K = lambda n, mode, const=False: Param("class", "K0", mode, "in" if const else "inout", n, const=const)
+    funcs = [
+        Func("ctor", [], ("void",), cls="K0", kind="ctor", suffix="_0"),
+        Func("ctor", [N("int", "a0")], ("void",), cls="K0", kind="ctor", suffix="_1"),
+        Func("dtor", [], ("void",), cls="K0", kind="dtor"),
+        Func("ident", [], ("native", "int"), cls="K0", const=True),
+        Func("m0", [N("int", "a0"), N("int", "a1")], ("native", "int"), cls="K0", const=True),
+        Func("m1", [K("a0", "ref"), K("a1", "ref"), K("a2", "ptr", const=True), K("a3", "val")], ("void",), cls="K0"),
+        Func("m2", [N("long", "a0"), N("long", "a1")], ("native", "long"), cls="K0", static=True),
+        Func("m3", [], ("classptr", "K0"), cls="K0"),
+        Func("m4", [], ("classval", "K0"), cls="K0", const=True),
+        Func("m5", [Param("enum", "Color", "val", "in", "a0")], ("enum",), cls="K0"),
+        Func("sw0", [N("int", "a0"), N("int", "a1"), N("double", "a2"), N("double", "a3")], ("native", "int")),
+        Func("sw1", [S("a0"), S("a1"), S("a2", "ptr", "inout"), S("a3", "ref", "out")], ("stringref",)),
+        Func("sw2", [N("double", "a0", "ptr", "out"), N("double", "a1", "ptr", "inout"), N("int", "a2", "ref", "inout"),
+                     N("int", "a3", "ref", "in", const=True)], ("nativeref", "int")),
+        Func("sw3", [Param("bool", "bool", "val", "in", "a0"), Param("bool", "bool", "val", "in", "a1"),
+                     Param("bool", "bool", "ptr", "inout", "a2"),
+                     Param("char", "char", "val", "in", "a3"), Param("cstr", "char", "ptr", "in", "a4", const=True)], ("bool",)),
+        Func("sw4", [Param("struct", "Pt", "val", "in", "a0"), Param("struct", "Pt", "val", "in", "a1"),
+                     Param("struct", "Pt", "ptr", "inout", "a2"),
+                     Param("struct", "Pt", "ref", "in", "a3", const=True)], ("struct",)),
+        Func("sw5", [Param("enum", "Color", "val", "in", "a0"), Param("enum", "Color", "val", "in", "a1")], ("structptr",)),
+        Func("sw6", [K("a0", "ptr"), K("a1", "ptr"), K("a2", "ref", const=True)], ("classcref", "K0")),
+        Func("sw7", [], ("cstr",)),
+        Func("sw8", [], ("nativeptr", "double")),
+        Func("df", [N("int", "a0")], ("native", "int"), defaults=[(N("int", "d0"), "7"), (N("long", "d1"), "9")]),
+        Func("ov", [N("int", "a0")], ("native", "int"), suffix="_0"),
+        Func("ov", [N("double", "a0")], ("void",), suffix="_1"),
+        Func("tf", [N("T", "a0")], ("void",), template=["int", "double"]),
+    ]
+    for i, f in enumerate(funcs):
+        f.fid = i
+        for p in f.params:
+            if p.fam == "native" and p.t != "T":
+                f.consts[p.name] = r.choice(DBL if p.t == "double" else INT_T[p.t])
+            elif p.fam == "bool":
+                f.consts[p.name] = r.random() < 0.5
+            elif p.fam == "string":
+                f.consts[p.name] = r.choice(["out", "new value", "zz top"])
+            elif p.fam == "struct":
+                f.consts[p.name] = (r.randrange(-9, 99), r.choice([0.25, -3.5]))
+        k = f.ret[0]
+        if k in ("native", "nativeptr", "nativeref"):
+            f.consts["ret"] = r.choice((DBL if f.ret[1] == "double" else INT_T[f.ret[1]])[1:])
+        elif k == "bool":
+            f.consts["ret"] = True
+        elif k == "enum":
+            f.consts["ret"] = ENUM[1]
+        elif k in ("cstr", "stringref"):
+            f.consts["ret"] = "ret text %d" % i
+        elif k in ("struct", "structptr"):
+            f.consts["ret"] = (40 + i, -3.5)
+        elif k.startswith("class"):
+            f.consts["ret"] = 900 + i
+    spec.funcs = funcs
+    return spec
